@@ -50,6 +50,13 @@ var c12Ops = []string{"ListDevices", "GetDevice", "ListVendors", "ListClasses", 
 	"GetSpecDirErrors", "InjectBoth", "InjectEdge", "Refresh", "ConfigureDirs", "ConfigureAutoOn", "ConfigureAutoOff", "WriteSpec", "RemoveSpec",
 	"DeviceApplyEdits", "SpecApplyEdits", "DefaultRefresh", "DefaultInject", "DefaultGetErrors"}
 
+func c12OtherName(tid int) string {
+	if tid%2 == 1 {
+		return fmt.Sprintf("other-%d.json", tid)
+	}
+	return fmt.Sprintf("other-%d", tid)
+}
+
 func genC12(t *rapid.T) c12Program {
 	p := c12Program{Auto: rapid.Bool().Draw(t, "auto"), GoMaxProcs: rapid.SampledFrom([]int{2, 4, 16}).Draw(t, "gomaxprocs"),
 		Yield: rapid.SampledFrom([]int{0, 1, 3, 10}).Draw(t, "yieldEvery"), Switches: rapid.IntRange(20, 120).Draw(t, "switches"),
@@ -240,9 +247,10 @@ func (env *c12Env) run(p c12Program) (msg string, mutators int) {
 			_ = cache.Configure(cdi.WithAutoRefresh(false))
 		case "WriteSpec":
 			// a Spec of another kind, into whatever directory currently has the highest priority
-			_ = cache.WriteSpec(other, fmt.Sprintf("other-%d", tid))
+			// (odd threads write the JSON encoding, even ones the default YAML)
+			_ = cache.WriteSpec(other, c12OtherName(tid))
 		case "RemoveSpec":
-			_ = cache.RemoveSpec(fmt.Sprintf("other-%d", tid))
+			_ = cache.RemoveSpec(c12OtherName(tid))
 		case "DeviceApplyEdits":
 			if d := cache.GetDevice(c12Kind + "=d3"); d != nil {
 				o := &oci.Spec{}
